@@ -25,6 +25,8 @@ struct Config {
   int ownBias = 70;       // % probability of taking own LIFO task when present
   double syncRate = 0.0;  // probability that a fine-grained sync point
                           // (atomic / free mutex) becomes a scheduling decision
+  int hotSite = 0;        // a sync-point kind (verif_hooks.h Site, 9 = mutex) that becomes a decision
+  double hotRate = 0.0;   // with this probability every time it is passed, whatever syncRate is
   int mode = 0;           // 0 = seeded random, 1 = scripted (deviations),
                           // 2 = PCT-style priorities (client experiments)
   int pctDepth = 2;       // priority change points in mode 2
